@@ -134,23 +134,35 @@ def r_ledger(root):
                 arg = ast.unparse(c.args[1]) if len(c.args) > 1 else ""
                 f2 = enclosing_func(c)
                 if f2 is not None and f2.name == "_remove_all_affected_models_in_construction":
-                    # cleanup of an abandoned load: only the models still under construction (marker filter) may be evicted
-                    axe = _sem.info(f2).expand(c.args[1], at=c) if len(c.args) > 1 else None
-                    ax = ast.unparse(axe) if axe is not None else ""
-                    # the filter may live in a helper: f(models) whose returns all carry the marker test
-                    for hc in ([x for x in ast.walk(axe) if isinstance(x, ast.Call) and isinstance(x.func, ast.Name)] if axe is not None else []):
-                        hd = [d for d in ast.walk(t) if isinstance(d, ast.FunctionDef) and d.name == hc.func.id]
-                        if len(hd) == 1:
-                            rets = [r for r in ast.walk(hd[0]) if isinstance(r, ast.Return) and r.value is not None]
-                            if rets and all("_tx_reference_resolver" in ast.unparse(_sem.info(hd[0]).expand(r.value, at=r)) for r in rets): ax += " /* %s filters by _tx_reference_resolver */" % hc.func.id
-                    if "_tx_reference_resolver" not in ax:
-                        out.append(Finding("C18", "C18.b", M, qualname(c), ast.unparse(c), "models cached by earlier loads are removed too (the removed set is not filtered by the construction marker): a failed load evicts finished models from the global repository and the next load re-parses them", witness="global_repository=True: load base; a load that imports base fails; load base again"))
-                    continue
+                    continue        # decided by evaluation below (C18.b)
                 if arg not in ("models", "models_to_be_removed"):
                     out.append(Finding("C18", "C18.a", M, qualname(c), ast.unparse(c), "not all models of the failed attempt are removed"))
                 if arg == "models_to_be_removed":
                     src = [s for s in own_nodes(f2) if isinstance(s, ast.Assign) and ast.unparse(s.targets[0]) == "models_to_be_removed"]
                     if not src or "_tx_reference_resolver" not in ast.unparse(src[0].value): out.append(Finding("C18", "C18.b", M, qualname(c), ast.unparse(src[0]) if src else "", "models cached by earlier loads are removed too (no construction-marker filter)"))
+    # C18.b by evaluation (sa/pyeval.py): the cleanup of an abandoned load is interpreted on a sample import closure of five models -
+    # three still under construction (one whose marker holds None, as _start_model_construction leaves it) and two finished earlier
+    from sa import pyeval as _pe
+    rf = find(t, "_remove_all_affected_models_in_construction"); p0_ = rf.args.args[0].arg
+    def _m(name, marker):
+        m_ = {".kind": "model", "._tx_filename": name, "._tx_parser": {".kind": "parser"}}
+        if marker != "none": m_["._tx_reference_resolver"] = None if marker == "null" else {".kind": "resolver"}
+        return m_
+    ms_ = [_m("main", "set"), _m("imp1", "null"), _m("old1", "none"), _m("imp2", "set"), _m("old2", "none")]
+    seen_ = {}
+    env_ = {"__functions__": {k_: v_ for k_, v_ in helper_functions(root, M, "_remove_all_affected_models_in_construction").items() if k_.startswith("_") and k_ not in ("_remove_all_affected_models_in_construction", "_abandon_user_objects")}, "__module__": t,
+            p0_: ms_[0], "get_included_models": _pe.PyFn(lambda m_: list(ms_)), "remove_models_from_repositories": _pe.PyFn(lambda models, to_remove: seen_.__setitem__("removed", (list(models), list(to_remove)))),
+            "_abandon_user_objects": _pe.PyFn(lambda models: seen_.__setitem__("abandoned", list(models)))}
+    inst += 1
+    try: _pe.run_block(rf.body, env_); err_ = None
+    except _pe.Raised as r_: err_ = "raises " + r_.cls
+    except _pe.Unsupported as u_: raise AnalysisError("_remove_all_affected_models_in_construction: outside the evaluated subset: %s" % u_)
+    want_ = [ms_[0], ms_[1], ms_[3]]
+    rem_ = seen_.get("removed", (None, None))[1]; ab_ = seen_.get("abandoned")
+    okb_ = err_ is None and rem_ is not None and len(rem_) == 3 and all(any(x is y for y in rem_) for x in want_) and ab_ is not None and len(ab_) == 3 and all(any(x is y for y in ab_) for x in want_)
+    ob("C18", "C18.b", M, "_remove_all_affected_models_in_construction", "exactly the models still under construction are evicted and abandoned", okb_)
+    if not okb_:
+        out.append(Finding("C18", "C18.b", M, "_remove_all_affected_models_in_construction", "remove_models_from_repositories(...)", "of an import closure with three models under construction (one whose marker is None) and two models finished by earlier loads, the cleanup %s; documented: exactly the three models under construction are removed from the repositories and have their user objects abandoned - models cached by earlier loads stay" % (err_ or "evicts %s and abandons %s" % ([m_["._tx_filename"] for m_ in rem_] if rem_ is not None else "nothing", [m_["._tx_filename"] for m_ in ab_] if ab_ is not None else "nothing")), witness="a file with an unresolvable reference imports a file that was loaded successfully before"))
     mm = load(root, "textx/metamodel.py")
     for q in ("TextXMetaModel.internal_model_from_file", "TextXMetaModel.model_from_str"):
         inst += 1
